@@ -43,6 +43,12 @@ fn main() {
             driver::cmd_check(prop, &tier)
         }
         "worker" => driver::cmd_worker(&args[2..]),
+        "crashprobe" => {
+            let prop = args.get(2).and_then(|p| Prop::from_name(p)).unwrap_or_else(|| usage());
+            let seed: u64 = args.get(3).and_then(|x| x.parse().ok()).unwrap_or_else(|| usage());
+            driver::cmd_crashprobe(prop, seed, args.get(4).unwrap_or_else(|| usage()))
+        }
+        "exec-trace" => driver::cmd_exec_trace(args.get(2).unwrap_or_else(|| usage())),
         "replay" => driver::cmd_replay(args.get(2).unwrap_or_else(|| usage())),
         "determinism" => {
             let n = args.get(2).and_then(|x| x.parse().ok()).unwrap_or(2000);
